@@ -14,6 +14,7 @@
  R6 no value filter: comprehension filters in the converters are key tests, never the truthiness of the converted item.
  R7 range round trip: list <-> keyed form of a range keeps every position (Span and SI sites).
  R8 loader reads  : the legacy loader reads from raman_efficiency only the keys the conversion carries.
+ R9 alias/dump    : alias copies of a mode are taken after all defaults are set; documents are printed with all siblings.
 """
 import ast
 
@@ -613,5 +614,34 @@ def r8_loader_reads(ctx):
               'loads differently in its two forms', f'reads {sorted(reads)}; carried {sorted(carried)}')
     ctx.need('R8.loader-reads', 1)
 
+
+def r9_alias_complete_and_dump(ctx):
+    """R9: (a) an alias copy of a transceiver mode is taken AFTER the mode was completed: no `mode_params[...] = ..` default is set
+    after the loop that duplicates the mode for its other names; (b) a converted document is printed with all its top-level
+    siblings (libyang PrintFlags.WithSiblings): several spectrum partitions / list entries are siblings"""
+    repo = ctx.repo
+    cls = repo.module('gnpy.tools.json_io').classes.get('Transceiver')
+    f = cls.methods['__init__']
+    ok = False
+    for lp in [x for x in walk_no_nested(f.node) if isinstance(x, ast.For) and isinstance(x.target, ast.Name) and ast.unparse(x.iter) == 'self.mode']:
+        mp = lp.target.id
+        dup = [s for s in ast.walk(lp) if isinstance(s, ast.For) and 'other_name' in ast.unparse(s.iter)]
+        if len(dup) != 1:
+            continue
+        late = [s for s in ast.walk(lp) if isinstance(s, ast.Assign) and isinstance(s.targets[0], ast.Subscript) and
+                ast.unparse(s.targets[0].value) == mp and s.lineno > dup[0].end_lineno]
+        ok = not late
+    ctx.check('R9.alias-complete', site(f), ok, key(f, 'alias-after-defaults'),
+              'a default is written into a transceiver mode after its alias copies were taken: the aliases miss the parameter and are no '
+              'longer the same mode as the primary entry')
+    d = repo.func(UTIL, 'dump_data')
+    pr = [c for c in ast.walk(d.node) if isinstance(c, ast.Call) and getattr(c.func, 'attr', '') == 'print']
+    okd = len(pr) == 1 and any(ast.unparse(a).endswith('PrintFlags.WithSiblings') for a in pr[0].args)
+    ctx.check('R9.dump-siblings', site(d), okd, key(d, 'with-siblings'),
+              'the converted document is not printed with its top-level siblings: only the first of several top-level entries '
+              '(spectrum partitions) would be written')
+    ctx.need('R9.alias-complete', 1)
+    ctx.need('R9.dump-siblings', 1)
+
 RULES = [('R2.accumulate', r2b_accumulators), ('R1.pairing', r1_pairing), ('R2.siblings', r2_siblings), ('R3.precision', r3_precision),
-         ('R4.loaders', r4_loaders), ('R5.aliases', r5_aliases), ('R6.no-value-filter', r6_no_value_filter), ('R7.range-round-trip', r7_range_round_trip), ('R8.loader-reads', r8_loader_reads)]
+         ('R4.loaders', r4_loaders), ('R5.aliases', r5_aliases), ('R6.no-value-filter', r6_no_value_filter), ('R7.range-round-trip', r7_range_round_trip), ('R8.loader-reads', r8_loader_reads), ('R9.alias-and-dump', r9_alias_complete_and_dump)]
